@@ -1,1 +1,5 @@
 /- property theorems of C06 (only theorems + non-vacuity examples live here) -/
+import Got.Model.Cache
+open Got.Model.Cache
+
+theorem C06_placeholder_init_no_progress (cfg : Cfg) (c : Cid) : clStep cfg init c = none := rfl
